@@ -193,7 +193,13 @@ class ProgGen:
         def build(k, depth):
             # a list-shaped pattern of k positions
             items = []
-            for _ in range(k):
+            for idx in range(k):
+                if depth == 0 and prefix == "A" and getattr(self, "force_multi", False) and idx < 2:
+                    # several DESTRUCTURED parameters in one function (each gets its own hidden capture
+                    # when the function is inline)
+                    self.use("destructure")
+                    items.append(build(rng.randint(1, 3), depth + 1))
+                    continue
                 if self.has("nilparam") and rng.random() < 0.06:
                     # `()` in a parameter position: binds nothing, takes up the position
                     self.use("nilparam")
@@ -587,8 +593,11 @@ class ProgGen:
         name = self.fresh("fi_" if inline else "fn_")
         self.force_capture = self.has("captures") and self.has("lets") and not self.classic and rng.random() < 0.2
         self.forced_now = self.force_capture
-        pat, types, _, shape = self.pattern(rng.randint(1, 4), prefix="A")
+        self.force_multi = self.has("destructure") and rng.random() < (0.3 if inline else 0.1)
+        multi = self.force_multi
+        pat, types, _, shape = self.pattern(rng.randint(2, 4) if multi else rng.randint(1, 4), prefix="A")
         self.force_capture = False
+        self.force_multi = False
         ret = rng.choice(["int", "int", "bytes", "ilist", "any"])
         body = self.expr(Scope(types), ret, rng.randint(1, 2) if self.has("dense") else rng.randint(1, 3))
         if self.has("dotcall") and shape[2] is not None and rng.random() < 0.6:
@@ -603,6 +612,23 @@ class ProgGen:
                 body = L(S("c"), first, body)
             else:
                 body = L(S("c"), body, t)
+        if multi:
+            # use a variable of EACH destructured parameter
+            def leaves(sh, acc):
+                if sh[0] == "leaf":
+                    acc.append(sh[1])
+                elif sh[0] == "cap":
+                    leaves(sh[2], acc)
+                else:
+                    for x in sh[1]:
+                        leaves(x, acc)
+                    if sh[2] is not None:
+                        leaves(sh[2], acc)
+                return acc
+            picks = [rng.choice(ls) for ls in (leaves(shape[1][0], []), leaves(shape[1][1], [])) if ls]
+            if picks:
+                body = L(S("c"), L(S("list"), *[S(n) for n in picks]), body)
+                ret = "any"
         caps = [n for n, t in types.items() if t == "any" and ("(@ " + n + " ") in text(pat)]
         forced = self.has("captures") and "(@ " in text(pat) and getattr(self, "forced_now", False)
         if caps and self.has("lets") and not self.classic and (forced or rng.random() < 0.5):
